@@ -285,9 +285,10 @@ def main(tier):
     run.count("expressions", len(corp))
     jobs = []
     codes = CODES + ["Vietnam"]
+    text_codes = ["LaTeX", "ASCIIMath"]          # "every braille code": the codes whose output is ASCII text are queried and routed like the cell codes
     switches = [f"{a}>{b_}" for a in codes for b_ in codes if a != b_ and (tier == "thorough" or "Vietnam" not in (a, b_) or "UEB" in (a, b_))]
     run.count("code_switch_pairs", len(switches))
-    for code in codes + switches:
+    for code in codes + text_codes + switches:
         for style in STYLES:
             for i in range(0, len(corp), 6):
                 jobs.append((code, style, corp[i:i + 6]))
@@ -313,7 +314,7 @@ def main(tier):
         trans += counts["queries"]
     return run.finish(
         rule=f"expressions: 7 hand-written (quadratic formula, long numbers, capitals, invisible operators, text, 3x3 matrix, single token) + every depth-1 term of G"
-             f"{' + depth-2 terms over a 12-construct core' if tier == 'thorough' else ''}, with author ids on every element; codes {CODES + ['Vietnam']} x 4 highlight styles. "
+             f"{' + depth-2 terms over a 12-construct core' if tier == 'thorough' else ''}, with author ids on every element; codes {CODES + ['Vietnam', 'LaTeX', 'ASCIIMath']} x 4 highlight styles. "
              f"One history per (expression, code, style): get_braille for each of the first 10 ids, an unknown id and ''; node_from_braille for cells 0..{NCELL - 1}, 200, 9999 and usize::MAX; "
              "set_navigation_node + get_braille_position + get_braille for each id; and after each of 6 navigation commands position / routing / highlight queries again. "
              "The same history again for every ordered pair of codes A>B: warm-up queries under A, switch to B, whole history under B. After every query the "
